@@ -101,6 +101,8 @@ PROPS = {
         theorems=None, impl_search=pqv_bign.huge("both", "sorted"), drop=["t", "hq"],
         gens=tiers(
             [rnd("both", "iter", 2500, 50, exclude="itermut,iter,intoiter,drain", boost="sortediter:3"),
+             # sorted consumption of queues that went through in-place mutation from either end
+             rnd("both", "iter", 1500, 50, exclude="iter,intoiter,drain", boost="sortediter:3,itermut:2"),
              rnd("both", "bulk", 1000, 50, exclude="serde,deser,eq,retain,retainmut,intovec", boost="sortedvec:6"),
              builds("pq", 4), builds("dpq", 5), pygen("big_sorted", 2)],
             [rnd("both", "iter", 20000, 80, exclude="itermut,iter,intoiter,drain", boost="sortediter:3"), builds("dpq", 7), pygen("big_sorted", 4)]),
@@ -118,6 +120,8 @@ PROPS = {
         gens=tiers(
             [rnd("both", "iter", 2500, 50, exclude=NOT_ITERMUT, boost="popif:4"),
              rnd("both", "bulk", 1500, 50, exclude="serde,deser,eq,fromvec,fromiter,extend,append,convert,clone,sortedvec,intovec", boost="retain:4,retainmut:4,popif:3"),
+             # retain / pop_if / iter_mut on queues in every reachable condition (also after a leaked iter_mut)
+             rnd("both", "all", 2000, 50, exclude="serde,deser,sortedvec,intovec,iter,intoiter,sortediter", boost="itermut:6,retain:8,retainmut:6,popif:4"),
              builds("pq", 4), builds("dpq", 4)],
             [rnd("both", "iter", 15000, 80, exclude=NOT_ITERMUT, boost="popif:4"), builds("dpq", 6)]),
     ),
